@@ -20,19 +20,26 @@ Inductive pv :=
 | PFltX (n: nat)         (* any other finite float, numbered by the harness *)
 | PNaN                   (* float('nan') *)
 | PStr (s: string)
-| POpq (n: nat).         (* any other object; numbered up to Python == by the harness *)
+| POpq (n: nat)          (* any other object; numbered up to Python == by the harness *)
+| PDict (kvs: list (string * pv)).   (* the mapping produced for a nested dataclass *)
 
 Definition is_none (v: pv) : bool := match v with PNone => true | _ => false end.
 Definition is_nan (v: pv) : bool := match v with PNaN => true | _ => false end.
 
 (* structural identity (type-sensitive): used to compare outputs *)
-Definition pv_eqb (a b: pv) : bool :=
+Fixpoint pv_eqb (a b: pv) {struct a} : bool :=
   match a, b with
   | PNone, PNone | PNaN, PNaN => true
   | PBool x, PBool y => Bool.eqb x y
   | PInt x, PInt y | PFlt x, PFlt y => x =? y
   | PStr x, PStr y => String.eqb x y
   | POpq x, POpq y | PFltX x, PFltX y => Nat.eqb x y
+  | PDict x, PDict y =>
+      (fix deqb (l1 l2: list (string * pv)) : bool :=
+         match l1, l2 with
+         | [], [] => true
+         | (k1, v1) :: r1, (k2, v2) :: r2 => String.eqb k1 k2 && pv_eqb v1 v2 && deqb r1 r2
+         | _, _ => false end) x y
   | _, _ => false end.
 
 (* math.isnan(v) is defined (bool, int, float); anything else raises TypeError *)
@@ -87,6 +94,14 @@ Definition kw_ok (o: opts) : bool :=
   (match o.(o_kon) with Some _ => o.(o_fon) | None => true end)
   && (match o.(o_kba) with Some _ => o.(o_fba) | None => true end)
   && (match o.(o_call) with Some _ => o.(o_fdl) | None => true end).
+
+(* the four code generation options of a class, and what a class forwards to a nested class:
+   the keyword flags enabled on BOTH (get_pack_method_flags, kernel K8) *)
+Record flags := { g_on : bool; g_ba : bool; g_dl : bool; g_cx : bool }.
+Definition both (a b: flags) : flags :=
+  {| g_on := a.(g_on) && b.(g_on); g_ba := a.(g_ba) && b.(g_ba);
+     g_dl := a.(g_dl) && b.(g_dl); g_cx := a.(g_cx) && b.(g_cx) |}.
+Definition flags_of (o: opts) : flags := {| g_on := o.(o_fon); g_ba := o.(o_fba); g_dl := o.(o_fdl); g_cx := o.(o_fcx) |}.
 
 (* ------------------------------------------------------------------ *)
 (* fields                                                               *)
